@@ -193,6 +193,22 @@ def do_op(m, op):
             nwarn = sum(1 for w in rec if issubclass(w.category, InvalidParamNameWarning))
         elif kind == "del_named":
             del m.named_params
+        elif kind == "set_named_params" and op.get("via"):
+            g = {k: fv(v) for k, v in op["kwargs"].items()} if op["kwargs"] else [fv(x) for x in op["args"]]
+            cls = type(m).__name__
+            empty = {} if cls in ("Unilateral", "HPVUnilateral") else {"ipsi": {}, "contra": {}}
+            extra = {"hpv_status": True} if cls == "HPVUnilateral" else {}
+            stages = list(m.get_all_distributions())
+            if stages:
+                extra["t_stage"] = stages[0]
+            try:
+                if op["via"] == "risk":
+                    m.risk(involvement=empty, given_params=g, **extra)
+                else:
+                    m.posterior_state_dist(given_params=g, **extra)
+            except (KeyError, NotImplementedError):
+                # no distribution for the T-stage / unsupported query: raised by the evaluation AFTER safe_set_params
+                return None, nwarn
         elif kind == "set_named_params":
             r = m.set_named_params(*[fv(x) for x in op["args"]], **{k: fv(v) for k, v in op["kwargs"].items()})
             if r is not None:
@@ -691,6 +707,11 @@ def gen_ops(rng, case, params, declared):
         if v2:
             v2[rng.randrange(len(v2))] = cv(rng.choice(BAD_VALUES))
         ops.append({"op": "likelihood", "given": v2, "style": style})
+    # risk(given_params=...) / posterior_state_dist(given_params=...) reach set_named_params through safe_set_params
+    # WITHOUT turning errors into a score: the same op for the model, another entry point on the implementation
+    for o in ops:
+        if o["op"] == "set_named_params" and not (o["args"] and o["kwargs"]) and rng.random() < 0.35:
+            o["via"] = rng.choice(["risk", "posterior"])
     return ops, style
 
 
@@ -856,6 +877,8 @@ def call_text(case):
             return f"m.set_named_params(*{o['args']}, **{o['kwargs']})"
         if o["op"] == "likelihood":
             return f"m.likelihood(given_params={o['given']})"
+        if o.get("via"):
+            return f"m.{'risk' if o['via'] == 'risk' else 'posterior_state_dist'}(given_params={o['kwargs'] or o['args']})"
         return f"m.set_params(*{o['args']}, **{o['kwargs']})"
     return (f"m = {case['cls']}(graph, {case['cfg']}, named_params={case.get('ctor_named')}); "
             + "; ".join(one(o) for o in case["ops"]))
